@@ -365,7 +365,7 @@ func (w *World) loop(horizon *time.Timer) {
 				}
 			}
 		}
-		idx := w.Tape.Choose(len(run))
+		idx := w.Tape.ChooseSched(len(run))
 		t := run[idx]
 		if idx != 0 && len(run) > 1 {
 			w.preempt++
